@@ -602,6 +602,8 @@ struct NodeTrack {
 }
 
 pub struct Checker {
+    /// C19: (node, transaction id) -> destinations it was sent to (and whether as a first-round query)
+    sent_ids: HashMap<(usize, Vec<u8>), Vec<(SocketAddr, bool)>>,
     kind: String,
     /// some node published Bootstrapped already
     pub completed_once: bool,
@@ -617,7 +619,7 @@ pub struct Checker {
 
 impl Checker {
     fn new(kind: &str) -> Checker {
-        Checker { kind: kind.to_string(), completed_once: false, probes: vec![], expect_peer: None, sample_contacts: false, e2e: None, track: HashMap::new(), probe_done: 0, expect_reply: vec![] }
+        Checker { sent_ids: HashMap::new(), kind: kind.to_string(), completed_once: false, probes: vec![], expect_peer: None, sample_contacts: false, e2e: None, track: HashMap::new(), probe_done: 0, expect_reply: vec![] }
     }
 
     /// C05 (F5) / C14: while a bootstrap exchange with a contact is pending, that contact sends a
@@ -653,6 +655,25 @@ impl Checker {
     }
 
     fn on_op(&mut self, world: &World, op: &str, case: usize, line: usize, st: &mut Stats, sim: &Sim) {
+        // C19 on the wire: every query carries an 8-byte id; an id goes to one address once; the only id
+        // used towards several addresses is that of a bootstrap first round (find_node for the own id)
+        for e in &world.last {
+            let Some((dst, bytes, _)) = &e.sent else { continue };
+            let Ok(m) = Message::decode(bytes) else { continue };
+            let MessageBody::Request(rq) = &m.body else { continue };
+            st.hit("c19_queries_checked");
+            if m.transaction_id.len() != 8 {
+                st.fail(case, line, &format!("[C19] node {} sent a query with a {}-byte transaction id", e.node, m.transaction_id.len()));
+            }
+            let first_round = matches!(rq, Request::FindNode(f) if f.id == f.target);
+            let seen = self.sent_ids.entry((e.node, m.transaction_id.clone())).or_default();
+            if seen.iter().any(|(a, _)| a == dst) {
+                st.fail(case, line, &format!("[C19] node {} sent transaction id {} to {} twice", e.node, hex(&m.transaction_id), addr_str(dst)));
+            } else if !seen.is_empty() && !(first_round && seen.iter().all(|(_, fr)| *fr)) {
+                st.fail(case, line, &format!("[C19] node {} used transaction id {} towards {} and {}", e.node, hex(&m.transaction_id), addr_str(&seen[0].0), addr_str(dst)));
+            }
+            seen.push((*dst, first_round));
+        }
         let mut w: Vec<&str> = op.split_whitespace().collect();
         if w[0] == "racing" { w.remove(0); }
         if w[0] == "combo" {
